@@ -108,7 +108,7 @@ def shards(tier):
                 out.append({"kind": "schedule", "harness": name, "bound": 2, "fresh": False, "slice": [k, 16]})
         else:
             out.append({"kind": "schedule", "harness": name, "bound": harness_bound(name, tier), "fresh": False})
-    fresh = ["np2_add_shared", "obj2_add_shared", "ak2_scale_vs_Array"] + (["np_add_shared", "obj_add_shared", "ak_add_vs_Array"] if tier == "thorough" else [])
+    fresh = ["np2_add_shared", "obj2_add_shared", "ak2_scale_vs_Array", "ak_register_vs_zip"] + (["np_add_shared", "obj_add_shared", "ak_add_vs_Array"] if tier == "thorough" else [])
     for name in fresh:
         out.append({"kind": "schedule", "harness": name, "bound": 1, "fresh": True})
     if tier == "thorough":
@@ -404,6 +404,30 @@ def _h_ak2_scale_vs_Array():
     return [lambda: a.scale(2.0), lambda: vector.Array([{"pt": 1.0, "phi": 0.5}]).x], [a]
 
 
+def _h_ak_register_vs_zip():
+    """one thread registers the Awkward behaviors globally while the other builds a vector array from plain columns and uses it"""
+    def build():
+        r = vector.zip({"x": ak.Array([3.0, 6.0]), "y": ak.Array([4.0, 8.0])})
+        return (r.rho, (r + r).x)
+
+    return [lambda: vector.register_awkward(), build], []
+
+
+REGISTRY_HARNESSES = {"ak_register_vs_zip"}
+
+
+def _glob_after(name, g0):
+    """the process-wide state a harness may legitimately leave behind, given the state before"""
+    if name not in REGISTRY_HARNESSES:
+        return g0
+    exp = dict(g0)
+    exp["vector._awkward_registered"] = True
+    merged = dict(g0["awkward.behavior"])
+    merged.update(dict(g0["vector.behavior"]))
+    exp["awkward.behavior"] = tuple(sorted(merged.items()))
+    return exp
+
+
 def _np2(seed):
     return vector.array({"x": np.array([1.5, -0.625]) + seed, "y": np.array([0.75, 2.25])})
 
@@ -471,7 +495,7 @@ BOUND2 = {"np2_truediv": "line", "np2_mul_neg": "line", "np2_eq_abs": "line", "o
 HARNESSES.update({"np2_truediv": _h_np2_truediv, "np2_mul_neg": _h_np2_mul_neg, "np2_eq_abs": _h_np2_eq_abs, "obj2_operators": _h_obj2_operators, "ak2_operators": _h_ak2_operators})
 HARNESSES.update({"ak_same_op_params": _h_ak_same_op_params, "np_same_op_params": _h_np_same_op_params, "obj_same_op_params": _h_obj_same_op_params})
 EXTRA_HARNESSES = {"np_three_threads": _h_np_three, "obj_three_threads": _h_obj_three,
-                   "np2_add_shared": _h_np2_add_shared, "obj2_add_shared": _h_obj2_add_shared, "ak2_scale_vs_Array": _h_ak2_scale_vs_Array}
+                   "ak_register_vs_zip": _h_ak_register_vs_zip, "np2_add_shared": _h_np2_add_shared, "obj2_add_shared": _h_obj2_add_shared, "ak2_scale_vs_Array": _h_ak2_scale_vs_Array}
 
 
 LINE_BOUND2_INFEASIBLE = {"obj_inplace_shared"}
@@ -655,7 +679,7 @@ def run_schedule_forked(res: Result, shard, make, name, bound, gran="line", fres
                     x = sched.Execution(programs, prefix, gran).run()
                     out = {"choices": x.choices, "points": [{"running": p["running"], "enabled": p["enabled"], "label": list(p["label"]) if isinstance(p["label"], tuple) else p["label"], "still_enabled": p["still_enabled"]} for p in x.points],
                            "nlabels": len(x.labels), "errors": [None if e is None else f"{type(e).__name__}: {e}" for e in x.errors], "obs": repr(tuple(observe(v) for v in x.results)),
-                           "operands_same": [B.snapshot(o) for o in operands] == before, "glob_same": Gl.snapshot() == g0}
+                           "operands_same": [B.snapshot(o) for o in operands] == before, "glob_same": Gl.snapshot() == _glob_after(name, g0)}
                 with os.fdopen(w, "wb") as fh:
                     fh.write(json.dumps(out).encode())
             except BaseException:  # noqa: BLE001
@@ -900,8 +924,8 @@ def _replay_schedule(case, ref_repr=None):
     g0 = Gl.snapshot()
     x = sched.Execution(programs, case["choices"], case.get("granularity", "line")).run()
     obs = tuple(observe(r) for r in x.results)
-    if Gl.snapshot() != g0:
-        res.violation(f"schedule_global_state|{name}", f"global state changed under schedule {case['choices']}: {_diff(g0, Gl.snapshot())}", case)
+    if Gl.snapshot() != _glob_after(name, g0):
+        res.violation(f"schedule_global_state|{name}", f"global state changed under schedule {case['choices']}: {_diff(_glob_after(name, g0), Gl.snapshot())}", case)
         return res
     if any(e is not None for e in x.errors):
         res.violation(f"schedule_exception|{name}", f"threads raised {x.errors} under schedule {case['choices']}", case)
